@@ -5,6 +5,7 @@ CONSTANTS
   MaxData = 1
   MaxHist = 0
   RegWhileClaimed = "refuse"
+  AltSpelling = "off"
 INVARIANTS C25_OnlyPartner C25_NoRelayBeforeBridge C25_InOrderNoLoss C25_SingleClaim C25_Symmetric C25_PartnerDisconnected C26_Released C26_NeverHangs D_RegistryConsistent
 VIEW View
 CONSTRAINT Bound
